@@ -285,8 +285,8 @@ pub fn gen_op(rng: &mut StdRng, u: &Universe, stored: &[(u64, u64)], stored_hash
             };
             let mut b = slice(&u.a, 1, start, n.min(12));
             match kind {
-                0..=49 => {}
-                50..=64 => {
+                0..=44 => {}
+                45..=59 => {
                     // fork slice
                     let f = u.forks.choose(rng).unwrap();
                     let fh = f[0].height();
@@ -299,7 +299,7 @@ pub fn gen_op(rng: &mut StdRng, u: &Universe, stored: &[(u64, u64)], stored_hash
                         b = p;
                     }
                 }
-                65..=79 => {
+                60..=74 => {
                     // a header advertising an already used hash at first / middle / last position
                     if !b.is_empty() {
                         let pos = match rng.gen_range(0..3) {
@@ -339,19 +339,25 @@ pub fn gen_op(rng: &mut StdRng, u: &Universe, stored: &[(u64, u64)], stored_hash
                         }
                     }
                 }
-                80..=86 => {
+                75..=80 => {
                     if !b.is_empty() {
                         let i = rng.gen_range(0..b.len());
                         unverify(&mut b[i]);
                     }
                 }
-                87..=92 => {
+                81..=86 => {
                     b.shuffle(rng);
                 }
-                93..=96 => {
+                87..=96 => {
                     // hole inside the batch
+                    // (right after the first header, in the middle, or before the last one)
                     if b.len() >= 3 {
-                        b.remove(b.len() / 2);
+                        let i = match rng.gen_range(0..3) {
+                            0 => 1,
+                            1 => b.len() / 2,
+                            _ => b.len() - 2,
+                        };
+                        b.remove(i);
                     }
                 }
                 _ => b.clear(),
